@@ -136,7 +136,7 @@ def big(acts, **kw):
     return K
 
 
-def repo_tests_validate(res, node='tests/test_logic.py::TestWorld'):
+def repo_tests_validate(res, node='tests'):
     """Pipeline B on the repository's own World tests: they run unmodified under harness/pytest_recorder.py; each
     test becomes one trace with its own constants (classes, instances, handler declarations read off the objects the
     test used) and is validated by TLC against WorldTrace.tla with every invariant of World.tla on."""
@@ -195,7 +195,7 @@ def repo_tests_validate(res, node='tests/test_logic.py::TestWorld'):
                 return [ren(x) for x in v]
             return v
         traces.append({'events': [{kk: ren(vv) for kk, vv in e.items()} for e in r['events']]})
-    K = base(Acts={'create', 'create2', 'add', 'remove', 'delete', 'process', 'clear', 'toggle', 'proc', 'ghost'}, MaxQ=1000, **U)
+    K = base(Acts={'create', 'create2', 'add', 'remove', 'delete', 'process', 'clear', 'toggle', 'proc', 'ghost', 'fault'}, MaxQ=1000, **U)
     gen = 'WorldTrace_repo'
     defs, consts, ov = [], {}, {}
     for kk, v in K.items():
